@@ -76,7 +76,8 @@ def cfgOfJson (j : J) : Cfg :=
     cloneSchemaDres := j.boolD "cloneSchemaDres", extObjDres := j.boolD "extObjDres", extFieldSub := j.boolD "extFieldSub",
     extFieldPy := j.boolD "extFieldPy", extIfaceRtype := j.boolD "extIfaceRtype", extUnionDesc := j.boolD "extUnionDesc",
     extUnionRtype := j.boolD "extUnionRtype", extArgPy := j.boolD "extArgPy", extInputPy := j.boolD "extInputPy",
-    extKeepAll := j.boolD "extKeepAll", extSchemaDres := j.boolD "extSchemaDres" }
+    extKeepAll := j.boolD "extKeepAll", extSchemaDres := j.boolD "extSchemaDres",
+    extInputFieldExtended := j.boolD "extInputFieldExtended" }
 
 def strPairs (j : J) (k : String) : List (String × String) :=
   (j.arrD k).filterMap fun e => match e with | .arr [.str a, .str b] => some (a, b) | _ => none
